@@ -95,7 +95,12 @@ func startServer(dir string) (*ogServer, error) {
 	build := exec.Command("go", "build", "-o", bin, "./app/ts-server")
 	build.Dir = repo
 	build.Env = os.Environ()
-	if out, err := build.CombinedOutput(); err != nil {
+	tb := time.Now()
+	out, err := build.CombinedOutput()
+	if os.Getenv("C18_VERBOSE") != "" {
+		fmt.Fprintf(os.Stderr, "TIMING go build ts-server %v\n", time.Since(tb))
+	}
+	if err != nil {
 		return nil, fmt.Errorf("build ts-server: %v: %s", err, tail(string(out), 1500))
 	}
 	raw, err := os.ReadFile(filepath.Join(repo, "config", "openGemini.singlenode.conf"))
@@ -254,6 +259,9 @@ func (s *ogServer) promQuery(db string, q *query) result {
 	v := url.Values{}
 	v.Set("db", db)
 	v.Set("query", q.text)
+	if q.lb != lookbackMs {
+		v.Set("lookback-delta", durText(q.lb))
+	}
 	path := "/api/v1/query"
 	if q.step == 0 {
 		v.Set("time", msToParam(q.start))
@@ -349,4 +357,18 @@ func sumCounts(body string) int {
 		}
 	}
 	return n
+}
+
+// flush forces every memtable of the server into data files.
+func (s *ogServer) flush() error {
+	resp, err := s.hc.Post(s.base+"/debug/ctrl?mod=flush", "application/x-www-form-urlencoded", nil)
+	if err != nil {
+		return err
+	}
+	defer resp.Body.Close()
+	b, _ := io.ReadAll(resp.Body)
+	if resp.StatusCode != 200 && resp.StatusCode != 204 {
+		return fmt.Errorf("flush: status %d: %s", resp.StatusCode, tail(string(b), 200))
+	}
+	return nil
 }
